@@ -1,8 +1,11 @@
 /-
-Line-protocol driver for the service model and the C07 / C08 / C13 (service slice) monitors.
+Line-protocol driver for the service model and the C07 / C08 / C13 (service slice) / C12 (service slice:
+genesis ops `export` / `reimport` / `prep_reimport`) monitors.
   model   <ops>              : prints one observation line per op line
   monitor <Cnn> <ops> <obs>  : evaluates the property's monitor on the implementation's observation stream
 -/
+import Irismod.Model.ServiceGenesis
+import Irismod.Spec.C12_Service
 import Irismod.Spec.C07
 import Irismod.Spec.C08
 import Irismod.Spec.C13_Service
@@ -148,7 +151,7 @@ def parseOp (t : List String) : Option Op :=
   | _ => none
 
 /-- the reset line: params, rate table, initial balances; returns the state and the printed denoms -/
-def parseReset (t : List String) : Option (State × List Denom) := do
+def parseReset (t : List String) : Option (State × List Denom × List Addr) := do
   let h ← intArg? t "h"
   let tm ← intArg? t "t"
   let maxto ← intArg? t "maxto"
@@ -173,7 +176,7 @@ def parseReset (t : List String) : Option (State × List Denom) := do
                   arbitration := atl, base := arg t "base", restricted := arg t "restricted" = "1" },
       height := h, time := tm, idx := 0, supplied := supplied,
       rates := rates.foldl (fun m e => AMap.set m e.1 e.2) [], bank := bank }
-  return (s, splitList "," (arg t "denoms"))
+  return (s, splitList "," (arg t "denoms"), splitList "," (arg t "aord"))
 
 def coinStr (d : Denom) (n : Nat) : String := if n = 0 then "-" else s!"{n}/{d}"
 def b2s (b : Bool) : String := if b then "1" else "0"
@@ -232,29 +235,66 @@ def resWord : Except Err State → String
   | .error (.reject _) => "rej"
   | .error (.panic _) => "panic"
 
-def modelLine (s : State) (denoms : List Denom) (line : String) : State × List Denom × String :=
+/-- the order of bech32 strings of the harness universe (`aord=` of the reset line) -/
+def rankOf (aord : List Addr) (a : Addr) : Nat := aord.idxOf a
+
+def showCtx (base : Denom) (e : CtxId × Ctx) : String :=
+  let c := e.2
+  s!"{e.1}:{c.svc}:{c.consumer}:{undash (joinWith "+" c.providers)}:{coinStr base c.cap}:{c.timeout}:{b2s c.repeated}:{c.freq}:{c.total}:{c.batchCounter}:{c.batchReqCount}:{c.batchRespCount}:{c.batchRespThreshold}:{batchStateNum c.batchState}:{ctxStateNum c.state}:{c.respThreshold}:{undash c.moduleName}"
+
+def coinsStrL (c : Coins) : String := undash (joinWith "+" (c.map fun e => s!"{e.2}/{e.1}"))
+
+/-- the exported genesis document in ITS OWN order (the order is part of what is compared) -/
+def showGenesis (g : ServiceGenesis.Genesis) : String :=
+  let p := g.params
+  let base := p.base
+  let defs := g.defs.map fun e => s!"{e.1}:{e.2}"
+  let binds := g.binds.map fun e =>
+    s!"{e.1.1}/{e.1.2}:{e.2.owner}:{coinStr base e.2.deposit}:{b2s e.2.available}:{e.2.disabledTime}:{e.2.qos}:{pricingStr e.2.pricing}"
+  let wd := g.wd.map fun e => s!"{e.1}:{e.2}"
+  let ctxs := g.ctxs.map (showCtx base)
+  s!"gparams={p.maxTimeout}:{p.minDepMult}:{coinsStrL p.minDeposit}:{p.tax.toStr}:{p.slash.toStr}:{p.complaint}:{p.arbitration}:{p.base}:{b2s p.restricted} gdefs={undash (joinWith "," defs)} gbinds={undash (joinWith "," binds)} gwd={undash (joinWith "," wd)} gctxs={undash (joinWith "," ctxs)}"
+
+/-- driver environment of one history: printed denoms, bech32 order -/
+structure Env where
+  denoms : List Denom := []
+  aord   : List Addr := []
+
+def modelLine (s : State) (env : Env) (line : String) : State × Env × String :=
   let t := tokens line
+  let denoms := env.denoms
   match t with
   | "service" :: "reset" :: r =>
     match parseReset r with
-    | some (s0, ds) => (s0, ds, "ok " ++ showState s0 ds)
-    | none => (s, denoms, "bad-op")
+    | some (s0, ds, ao) => (s0, { denoms := ds, aord := ao }, "ok " ++ showState s0 ds)
+    | none => (s, env, "bad-op")
+  | ["service", "export"] =>
+    let g := ServiceGenesis.exportGenesis (rankOf env.aord) s
+    (s, env, s!"ok validate={if ServiceGenesis.genesisValid g then "ok" else "err"} {showGenesis g}")
+  | ["service", "reimport"] =>
+    match ServiceGenesis.reimport (rankOf env.aord) { s with cb := [] } with
+    | .ok s' => (s', env, "ok " ++ showState s' denoms)
+    | .error _ => ({ s with cb := [] }, env, "panic " ++ showState { s with cb := [] } denoms)
+  | ["service", "prep_reimport"] =>
+    match ServiceGenesis.prepReimport (rankOf env.aord) { s with cb := [] } with
+    | .ok s' => (s', env, "ok " ++ showState s' denoms)
+    | .error _ => ({ s with cb := [] }, env, "panic " ++ showState { s with cb := [] } denoms)
   | _ =>
     match parseOp t with
-    | none => (s, denoms, "bad-op")
+    | none => (s, env, "bad-op")
     | some op =>
       let r := step s op
       let s' := match r with | .ok s' => s' | .error _ => { s with cb := [] }
-      (s', denoms, resWord r ++ " " ++ showState s' denoms)
+      (s', env, resWord r ++ " " ++ showState s' denoms)
 
 def runModel (ops : Array String) : IO Unit := do
   let mut s : State := {}
-  let mut ds : List Denom := []
+  let mut env : Env := {}
   let out ← IO.getStdout
   for l in ops do
-    let (s', ds', o) := modelLine s ds l
+    let (s', env', o) := modelLine s env l
     s := s'
-    ds := ds'
+    env := env'
     out.putStrLn o
 
 
@@ -420,7 +460,7 @@ def runMonitor (prop : String) (ops obs : Array String) : IO Unit := do
     match t with
     | "service" :: "reset" :: r =>
       match parseReset r with
-      | some (s0, dl) =>
+      | some (s0, dl, _) =>
         match parseState s0 o with
         | some s =>
           base := s0; ds := dl; pre := s; preTok := o; havePre := true
@@ -432,13 +472,45 @@ def runMonitor (prop : String) (ops obs : Array String) : IO Unit := do
             out.putStrLn (failLine prop "reset-state" "" (i+1)); fails := fails + 1
         | none => out.putStrLn (failLine prop "obs-parse" "" (i+1)); fails := fails + 1; havePre := false
       | none => out.putStrLn (failLine prop "reset-parse" "" (i+1)); fails := fails + 1; havePre := false
+    | ["service", "export"] =>
+      -- the state does not change; C12 judges the verdict of the real ValidateGenesis on the real document
+      if prop = "C12" then
+        if !havePre then
+          out.putStrLn (failLine prop "no-pre-state" "" (i+1)); fails := fails + 1
+        else
+          steps := steps + 1
+          for f in Spec.C12S.checkExport pre (arg o "validate" = "ok") do
+            out.putStrLn (failLine prop f.clause f.cls (i+1)); fails := fails + 1
+    | ["service", "reimport"] | ["service", "prep_reimport"] =>
+      let kind := t.getD 1 ""
+      match parseState base o with
+      | some post =>
+        if !havePre then
+          out.putStrLn (failLine prop "no-pre-state" "" (i+1)); fails := fails + 1
+        else
+          let accepted := o.head? == some "ok"
+          if !accepted ∧ obsBody o ≠ obsBody preTok then
+            out.putStrLn (failLine prop "rejected-state-unchanged" "" (i+1)); fails := fails + 1
+          if prop = "C12" then
+            steps := steps + 1
+            let fl := if kind = "reimport" then Spec.C12S.checkReimport ds pre post accepted
+                      else Spec.C12S.checkPrepReimport ds pre post accepted
+            for f in fl do
+              out.putStrLn (failLine prop f.clause f.cls (i+1)); fails := fails + 1
+          else if accepted then
+            -- a new chain starts here: the history-long memory of the other monitors does not carry over
+            m07 := {}
+            m08 := {}
+            m13 := {}
+          pre := post; preTok := o
+      | none => out.putStrLn (failLine prop "obs-parse" "" (i+1)); fails := fails + 1
     | _ =>
       match parseOp t, parseState base o with
       | some op, some post =>
         if !havePre then
           out.putStrLn (failLine prop "no-pre-state" "" (i+1)); fails := fails + 1
         else
-          steps := steps + 1
+          if prop ≠ "C12" then steps := steps + 1
           let accepted := o.head? == some "ok"
           if o.head? == some "panic" then
             out.putStrLn (failLine prop "panic" "" (i+1)); fails := fails + 1
@@ -472,10 +544,10 @@ def main (args : List String) : IO UInt32 := do
   match args with
   | ["model", ops] => runModel (← readLines ops); return 0
   | ["monitor", prop, ops, obs] =>
-    if prop = "C07" ∨ prop = "C08" ∨ prop = "C13" then
+    if prop = "C07" ∨ prop = "C08" ∨ prop = "C13" ∨ prop = "C12" then
       runMonitor prop (← readLines ops) (← readLines obs); return 0
     else IO.eprintln "unknown property"; return 2
-  | _ => IO.eprintln "usage: model <ops> | monitor <C07|C08|C13> <ops> <obs>"; return 2
+  | _ => IO.eprintln "usage: model <ops> | monitor <C07|C08|C12|C13> <ops> <obs>"; return 2
 
 end Driver.Service
 
